@@ -862,4 +862,39 @@ v("P-drain-helper-returns-pair", [(P, POP_BODY, POP_RECORD)], {"C07": "ok", "C08
 v("drain-helper-pair-swapped", [(P, POP_BODY, POP_RECORD.replace("        return done, pending\n", "        return pending, done\n"))], {"C07": "R07.8"})
 v("drain-helper-pending-dropped", [(P, POP_BODY, POP_RECORD.replace("                pending.add(meta_task)\n", "                pass\n"))], {"C07": "R07.8"})
 
+# ---- round 7 second wave / batch 8
+MAP_LOG_ARG = "                    str(next_arg),\n"
+v("P-percent-format-of-a-one-tuple", [(P, MAP_LOG_ARG, '                    "%s" % (next_arg,),\n')], {"C05": "ok", "C12": "ok"})
+v("percent-format-of-user-value-in-handler", [(P, MAP_LOG_ARG, '                    "%s" % next_arg,\n')], {"C05": "R05.2i", "C12": "R12.3"})
+
+CANCEL_LOOKUPS = "        tasks = [self._get_running_task(task_id) for task_id in task_ids]\n"
+v("P-cancel-lookups-tuple-of-generator", [(P, CANCEL_LOOKUPS, "        tasks = tuple(self._get_running_task(task_id) for task_id in task_ids)\n")], {"C06": "ok", "C14": "ok"})
+v("cancel-lookups-bare-generator", [(P, CANCEL_LOOKUPS, "        tasks = (self._get_running_task(task_id) for task_id in task_ids)\n")], {"C06": "R06.3"})
+
+PAIR_HELPER = """    @staticmethod
+    def _create_apply_coroutine(group_name: str, func: Any, args: Any, kwargs: Any) -> Tuple[Any, bool]:
+        try:
+            coroutine = func(*args, **kwargs)
+        except Exception as e:
+            log.exception("%s occurred in group '%s' while trying to create coroutine: %s(*%s, **%s)",
+                          str(e.__class__.__name__), group_name, func.__name__, repr(args), repr(kwargs))
+            return None, False
+        return coroutine, True
+
+    async def _apply_spawner(
+"""
+
+
+def pair_use(test: str) -> str:
+    return f"""            coroutine, created = self._create_apply_coroutine(group_name, func, args, kwargs)
+{test}"""
+
+
+PK = [(P, "    async def _apply_spawner(\n", PAIR_HELPER)]
+v("P-pair-returning-helper", PK + [(P, APPLY_TRY, pair_use("            if not created:\n                continue\n"))], {"C04": "ok", "C12": "ok", "C07": "ok", "C01": "ok"})
+v("pair-returning-helper-flag-inverted", PK + [(P, APPLY_TRY, pair_use("            if created:\n                continue\n"))], {"C04": "R04"})
+v("pair-returning-helper-flag-ignored", PK + [(P, APPLY_TRY, pair_use(""))], {"C04": "R04", "C12": "R12"})
+v("pair-returning-helper-swapped-components", [(P, "    async def _apply_spawner(\n", PAIR_HELPER.replace("        return coroutine, True\n", "        return True, coroutine\n"))]
+  + [(P, APPLY_TRY, pair_use("            if not created:\n                continue\n"))], {"C04": "R04"})
+
 VARIANTS = V
